@@ -69,7 +69,15 @@ def parseCfg (args : List String) : Option Cfg := do
   let rm ← get "rm"
   let skip ← get "skip"
   let colls ← parseColls (← get "colls")
-  let skipV ← if skip == "-" then some none else (skip.toNat?.map some)
+  -- `skip=SECONDS[.NANOS]`: event time is whole seconds (CAS / 10^9), so "event time before SECONDS + NANOS ns" is
+  -- "event time < SECONDS + 1" when NANOS > 0 (Props/C03.skipUntil_subsecond_ceil): the model's whole-second skipUntil is the ceiling
+  let skipV ← if skip == "-" then some none else match skip.splitOn "." with
+    | [sec] => sec.toNat?.map some
+    | [sec, ns] => do
+      let sv ← sec.toNat?
+      let nv ← ns.toNat?
+      some (some (if nv > 0 then sv + 1 else sv))
+    | _ => none
   if lo > hi then none else
   some { lo, hi, finite := mode == "fin", resetLatest := reset == "latest", readOnly := ro == "1",
          obs := { rmEnabled := rm == "1", skipUntil := skipV, colls } }
